@@ -27,16 +27,23 @@ for n in idxs:
     sh('git reset -q --hard HEAD && git clean -fdq')
     os.makedirs(os.path.join(WT, 'tests'), exist_ok=True)
     os.makedirs(os.path.join(WT, 'target'), exist_ok=True)
-    shutil.copy(demo, os.path.join(WT, 'tests', 'seed_demo.rs'))
-    rc0, o0 = sh('cargo test --offline%s --test seed_demo 2>&1 | tail -15' % FEAT)
-    pass0 = 'test result: ok' in o0
+    is_example = '#[test]' not in open(demo).read()
+    if is_example:
+        os.makedirs(os.path.join(WT, 'examples'), exist_ok=True)
+        shutil.copy(demo, os.path.join(WT, 'examples', 'seed_demo.rs'))
+        DEMO = 'cargo run --offline%s --example seed_demo > /tmp/sv_demo.out 2>&1; echo "DEMO_EXIT=$?"; tail -8 /tmp/sv_demo.out' % FEAT
+    else:
+        shutil.copy(demo, os.path.join(WT, 'tests', 'seed_demo.rs'))
+        DEMO = 'cargo test --offline%s --test seed_demo 2>&1 | tail -15' % FEAT
+    rc0, o0 = sh(DEMO)
+    pass0 = ('DEMO_EXIT=0' in o0) if is_example else ('test result: ok' in o0)
     rc, o = sh('git apply %s 2>&1 || (git apply --3way %s 2>&1 && ! git diff --name-only --diff-filter=U | grep -q .)' % (patch, patch))
     applied = rc == 0
     rc1, o1 = sh('cargo test --offline --lib 2>&1 | tail -5')
     m = re.search(r'test result: (\w+)\. (\d+) passed; (\d+) failed', o1)
     suite = (m.group(1), int(m.group(2)), int(m.group(3))) if m else ('?', 0, 0)
-    rc2, o2 = sh('cargo test --offline%s --test seed_demo 2>&1 | tail -15' % FEAT)
-    fail2 = 'test result: FAILED' in o2 or 'panicked' in o2
+    rc2, o2 = sh(DEMO)
+    fail2 = ('DEMO_EXIT=' in o2 and 'DEMO_EXIT=0' not in o2 and 'could not compile' not in o2) if is_example else ('test result: FAILED' in o2 or 'panicked' in o2)
     hang = False
     ok = applied and pass0 and suite[0] == 'ok' and suite[1] >= 397 and fail2
     print('%s #%s: applied=%s demo_passes_unchanged=%s suite=%s demo_fails_with_patch=%s => %s' % (prop, n, applied, pass0, suite, fail2, 'CONFIRMED' if ok else 'REJECTED'))
